@@ -62,9 +62,9 @@ Definition lattice_filter_kind (k : kind) (keep : cell -> bool) : list cell :=
 Definition lattice_filter (keep : cell -> bool) : list cell := flat_map (fun k => lattice_filter_kind k keep) all_kinds.
 Definition lattice_size : Z := (Z.of_nat (List.length all_kinds) * Z.of_nat (List.length all_heavy) * 3 * 4 * 4 * 2 * (3 + 2 * 3))%Z.
 
-(* gaps that are recorded as known findings rather than repaired: polarised g1 at N3LO (classes missing) *)
-Definition documented_gap (c : cell) : bool :=
-  match c_kind c with G1 => (c_pto c =? 3)%Z && negb (match c_proc c with CC => true | _ => false end) | _ => false end.
+(* gaps that are recorded as known findings rather than repaired: none is left (polarised g1 at N3LO was one until the classes were
+   added to the source; the regenerated inventory now contains them) *)
+Definition documented_gap (c : cell) : bool := false.
 Definition undocumented_crashes (inv : inventory) : list cell :=
   lattice_filter (fun c => is_crash (run_outcome inv c) && negb (documented_gap c)).
 Definition undocumented_crashes_kind (inv : inventory) (k : kind) : list cell :=
